@@ -335,6 +335,15 @@ def decoder_window_cap(prog, res):
     al = f.call_roots("ZSTD_customMalloc")
     guards.require(f, res, R, "window-vs-maxWindowSize", Want("frameParameter_windowTooLarge", ">", {"f:windowSize"}, {"f:maxWindowSize"}), al, sites=gs,
                    why="(buffers would be sized for a window larger than the configured maximum)")
+    # legacy frames: their streaming decoders allocate from the legacy frame header; the legacy decoder may be created only past a
+    # comparison with maxWindowSize that fails with windowTooLarge
+    il = f.call_roots("ZSTD_initLegacyStream")
+    if il:
+        lg = [g for g in gs if "frameParameter_windowTooLarge" in g.codes and "f:maxWindowSize" in (g.L | g.R) and "f:windowSize" not in (g.L | g.R)]
+        res.check(bool(lg) and f.must_pass(via_edges={(g.bid, g.ok) for g in lg}, targets=il), R, "legacy-window-vs-maxWindowSize", f.loc,
+                  "the legacy streaming decoder is created only for a frame whose window is within maxWindowSize",
+                  "ZSTD_decompressStream creates the legacy streaming decoder without comparing the legacy frame's window with maxWindowSize: a 9-byte v0.7 "
+                  "header makes a decoder limited to 1 MB allocate 128 MB")
     sizes = [x for _, _, x in f.events(lambda y: y.get("k") == "call" and y.get("c") == "ZSTD_decodingBufferSize_internal")]
     res.check(bool(sizes), R, "buffer-size-function", f.loc, "output buffer sized by ZSTD_decodingBufferSize_internal(windowSize, ...)", "decoder buffer sizing changed")
     e = prog.fn("ZSTD_estimateDStreamSize")
